@@ -58,6 +58,10 @@ def gen_cases(rng, tier):
       model = spec.numeric_species(rng, model)      # species labelled '9', '10', '2', '100'
     if groute == "api":
       model["api_containers"] = rng.choice([None, None, "tuple", "generator", "map", "amend_after_write"])
+      if i % 4:
+        # functions that return 0-d numpy arrays: fresh ones, integer-typed ones where the value is whole, memoised ones
+        # (the same array object again for the same separation - it must come back unchanged)
+        model["api_results"] = [None, "numpy0d", "numpy0d_int", "numpy0d_cached"][i % 4]
       model["api_extra_density_keys"] = (i % 3 == 0)
     if not unique and i % 4 == 1 and len(model["density"]) >= 2:
       # two A->B definitions that read the same once the blanks between their tokens are removed ('1 25' / '12 5')
@@ -195,6 +199,7 @@ def run_case(case, ctx):
     ctx.count("out_of_domain")
     return
   try:
+    del routes.NUMPY0D_CACHED[:]
     data = produce(ctx, model, route, rng)
   except OverflowError as e:
     if eamref.overflow_is_out_of_domain(ref.all_functions()):
@@ -210,6 +215,10 @@ def run_case(case, ctx):
   if data is None:
     return
   ctx.count("executions")
+  if model.get("api_results"):
+    ctx.cls("api_results:" + model["api_results"])
+    if not routes.numpy0d_mutations(ctx):
+      return
   try:
     slots = extract_slots(ctx, model, data, order, nr)
   except readers.FormatError as e:
